@@ -13,13 +13,13 @@ import (
 )
 
 type cval struct {
-	v    Val
-	T    types.Type // nil for untyped constants
-	k    *big.Int   // untyped integer constant
-	addr *Term      // address of the storage this value was read from (lvalues)
-	fk    *float64 // untyped float constant
+	v     Val
+	T     types.Type // nil for untyped constants
+	k     *big.Int   // untyped integer constant
+	addr  *Term      // address of the storage this value was read from (lvalues)
+	fk    *float64   // untyped float constant
 	isNil bool
-	ty   types.Type // value denotes a type (typeis argument / conversion head)
+	ty    types.Type // value denotes a type (typeis argument / conversion head)
 }
 
 type cenv struct {
